@@ -68,6 +68,22 @@ def setup():
     assert rc == 0, out[-2000:]
 
 
+_unc = None
+
+
+def dead(rel, line):
+    global _unc
+    if _unc is None:
+        try:
+            _unc = json.load(open("/var/tmp/cov/unc.json"))
+        except Exception:
+            _unc = {}
+    for a, b, n in _unc.get("github.com/orda-io/orda/" + rel, []):
+        if a <= line <= b:
+            return True
+    return False
+
+
 def points(files):
     out = []
     for f in files:
@@ -81,6 +97,8 @@ def points(files):
             except Exception:
                 continue
             p["rel"] = f
+            if dead(f, p["line"]):
+                continue  # never executed by any quick check (coverage run): dead or out-of-scope code
             out.append(p)
     return out
 
